@@ -5,6 +5,8 @@ import (
 	"fmt"
 	"go/ast"
 	"go/constant"
+	"go/token"
+	"go/types"
 	"os"
 	"path/filepath"
 	"sort"
@@ -365,6 +367,9 @@ func ruleDecisionInputs(c *Ctx, r *Report, clause string, pkgPrefixes ...string)
 		g.fns = append(g.fns, fi.Key)
 		for _, rf := range w.astRegion(fi) {
 			for _, ce := range branchConds(rf) {
+				if isErrNilTest(rf.Pkg.TypesInfo, ce) {
+					continue // error handling (judged by the error-propagation and error-drop rules)
+				}
 				var a *Atoms
 				w.withHost(fi.Key, func() { a = w.exprAtomsDeep(rf, ce) })
 				data := newAstAtoms()
@@ -372,14 +377,14 @@ func ruleDecisionInputs(c *Ctx, r *Report, clause string, pkgPrefixes ...string)
 					data.Fields[f] = true
 				}
 				for cl := range a.Calls {
-					if n := strings.TrimLeft(strings.TrimPrefix(strings.TrimPrefix(cl, "inlined:"), "func:"), "(*"); isGleeceCallee(n) && !strings.HasPrefix(n, "infrastructure/logger") && !strings.HasPrefix(n, "common/linq") {
+					if n := strings.TrimLeft(strings.TrimPrefix(strings.TrimPrefix(cl, "inlined:"), "func:"), "(*"); isGleeceCallee(n) && !strings.HasPrefix(n, "infrastructure/logger") && !strings.HasPrefix(n, "common.") && !strings.HasPrefix(n, "common/") {
 						data.Calls[cl] = true
 					}
 				}
 				if len(data.Fields)+len(data.Calls) == 0 {
 					continue
 				}
-				if un := w.unknownInputs(c.VerifDir, fi.Key, data); len(un) > 0 {
+				if un := w.newToNeighbourhood(c.VerifDir, fi, w.unknownInputs(c.VerifDir, fi.Key, data)); len(un) > 0 {
 					pos := w.pos(ce.Pos())
 					g.sites = append(g.sites, pos)
 					g.viol = fmt.Sprintf("%s: a branch of %s now depends on %v, which none of the function's reviewed branches consulted (tables/condatoms.json): for some inputs it now does, skips or answers something else than the reviewed function did", pos, fi.Key, un)
@@ -400,4 +405,99 @@ func ruleDecisionInputs(c *Ctx, r *Report, clause string, pkgPrefixes ...string)
 		}
 		r.add(clause, "decision-inputs", p, fmt.Sprintf("the branches of the %d reviewed functions of %s read only the fields and ask only the gleece functions their reviewed branches did", len(g.fns), p), []string{p}, sites, g.viol)
 	}
+}
+
+// newToNeighbourhood filters decision inputs down to those that are new not only to the
+// function's own reviewed branches but to its surroundings: a field the reviewed function
+// already mentioned anywhere in its body (it had the value in hand), and anything the reviewed
+// branches of its direct callers and callees decide on (a condition moved across a call
+// boundary) are not new inputs.
+func (w *World) newToNeighbourhood(verifDir string, fi *FuncInfo, unknown []string) []string {
+	if len(unknown) == 0 {
+		return nil
+	}
+	w.loadCondAtoms(verifDir)
+	w.buildNeighbours()
+	hood := append([]string{fi.Key}, w.neighbours[fi.Key]...)
+	var out []string
+	for _, u := range unknown {
+		known := false
+		for _, h := range hood {
+			if w.condAtoms[h][u] {
+				known = true
+				break
+			}
+			if !strings.HasPrefix(u, "call:") && !strings.HasPrefix(u, "lit:") && !strings.HasPrefix(u, "const:") && !strings.HasPrefix(u, "input:") && !strings.HasPrefix(u, "global:") {
+				// a field, qualified: pkg.Type.Field
+				name := u[strings.LastIndex(u, ".")+1:]
+				fp := w.base.prints[h]
+				if len(fp) >= 80 {
+					known = true // fingerprint truncated: cannot tell
+					break
+				}
+				for _, p := range fp {
+					if p == "field:"+name {
+						known = true
+					}
+				}
+				if known {
+					break
+				}
+			}
+		}
+		if !known {
+			out = append(out, u)
+		}
+	}
+	return out
+}
+
+// buildNeighbours: per function, the reviewed gleece functions it calls and is called by
+// (statically, on today's tree).
+func (w *World) buildNeighbours() {
+	if w.neighbours != nil {
+		return
+	}
+	w.neighbours = map[string][]string{}
+	add := func(a, b string) {
+		for _, x := range w.neighbours[a] {
+			if x == b {
+				return
+			}
+		}
+		w.neighbours[a] = append(w.neighbours[a], b)
+	}
+	for k, fi := range w.Funcs {
+		if fi.Decl.Body == nil {
+			continue
+		}
+		host := w.hostKey(k)
+		ast.Inspect(fi.Decl.Body, func(n ast.Node) bool {
+			if cl, ok := n.(*ast.CallExpr); ok {
+				if name := calleeOfCall(fi.Pkg.TypesInfo, cl); name != "" && w.Funcs[name] != nil {
+					for _, h := range hostParts(host) {
+						for _, g := range hostParts(w.hostKey(name)) {
+							if h != g {
+								add(h, g)
+								add(g, h)
+							}
+						}
+					}
+				}
+			}
+			return true
+		})
+	}
+}
+
+// isErrNilTest: `err != nil` / `err == nil` on a value of type error.
+func isErrNilTest(info *types.Info, e ast.Expr) bool {
+	be, ok := ast.Unparen(e).(*ast.BinaryExpr)
+	if !ok || (be.Op != token.NEQ && be.Op != token.EQL) {
+		return false
+	}
+	errT := types.Universe.Lookup("error").Type()
+	isErr := func(x ast.Expr) bool { t := info.TypeOf(x); return t != nil && types.Identical(t, errT) }
+	isNil := func(x ast.Expr) bool { id, ok := ast.Unparen(x).(*ast.Ident); return ok && id.Name == "nil" }
+	return (isErr(be.X) && isNil(be.Y)) || (isErr(be.Y) && isNil(be.X))
 }
